@@ -146,6 +146,7 @@ def prepare(ctx, combos):
             binaries[(profile, hooks)] = binary
         if failed is None:
             ctx.excluded_modules = exclude
+            ctx.binaries = binaries
             return d, manifest, binaries
         bad = failing_modules(failed)
         badd = failing_drivers(failed)
@@ -187,12 +188,108 @@ def absorb(ctx, rep, label, pid):
                             "replay_args": "--seed %d --replay %s:%s:%s" % (ctx.seed, f["module"], f["cap"], f["episode"]), "crate": crate_dir(ctx)})
 
 
+def triage_crash(ctx, binary, label, module, cap, episode, ops, extra):
+    """A driver built with optimisation died from a hardware fault. Before the generated code is
+    blamed, the same episode (same seed, module, capacity, episode number, flags: the operations
+    are a function of those) is replayed by the unoptimised driver with the hooks on and by the
+    interpreter. If either sees anything, that is the violation and it is reported as such. If
+    both run the episode to its end and every monitor stays silent, Rust semantics are
+    respected on that execution and the fault is attributed to the optimised code generation of
+    the toolchain, not to the property (see DESIGN 7, "optimised build dies, interpreter clean").
+    Returns (cleared, text)."""
+    key = (module, cap, episode)
+    cache = ctx.__dict__.setdefault("triaged", {})
+    if key in cache:
+        return cache[key]
+    if len(cache) >= 8:
+        return (False, "too many crashes to triage in one run")
+    d = crate_dir(ctx)
+    replay = ["--seed", str(ctx.seed), "--replay", "%s:%s:%s" % (module, cap, episode), "--quiet-panics"] + [e for e in extra if e != "--drop-panics"]
+    verdict = None
+    dbg = getattr(ctx, "binaries", {}).get(("dev", True))
+    if dbg is None or dbg == binary:
+        verdict = (False, "no unoptimised hooks-on driver to compare with")
+    else:
+        rc, out, err = common.sh([dbg] + replay, timeout=900)
+        rep = common.parse_json_tail(out)
+        if rc != 0 or rep is None:
+            verdict = (False, "the unoptimised hooks-on driver fails on the same episode too (status %s)" % rc)
+        elif rep.get("findings"):
+            verdict = (False, "the unoptimised hooks-on driver reports %s on the same episode" % [f["kind"] for f in rep["findings"]][:3])
+    if verdict is None:
+        serde_ops = any(o.startswith(("Ser", "De", "Expected")) for o in ops)
+        env = dict(common.ENV)
+        env["MIRIFLAGS"] = "" if serde_ops else SB
+        env["CARGO_TARGET_DIR"] = target_dir(ctx)
+        with common.Lock("gendrv-build-%s" % ctx.tier):
+            rc, out, err = common.sh(["cargo", "+nightly", "miri", "run", "--offline", "-q", "--", "--episodes", "0", "--modules", "none"], cwd=d, env=env, timeout=3600)
+        if rc != 0:
+            verdict = (False, "the interpreter build failed, nothing to compare with")
+        else:
+            rc, out, err = common.sh(["cargo", "+nightly", "miri", "run", "--offline", "-q", "--"] + replay, cwd=d, env=env, timeout=3600)
+            finding = common.classify_miri(err)
+            rep = common.parse_json_tail(out)
+            if rc is None:
+                verdict = (False, "the interpreter timed out on the same episode")
+            elif finding and finding[0] != "unsupported":
+                verdict = (False, "the interpreter reports on the same episode: %s | %s" % (finding[1], finding[2]))
+            elif rc != 0 or rep is None:
+                verdict = (False, "the interpreter did not finish the same episode (status %s)" % rc)
+            elif rep.get("findings"):
+                verdict = (False, "the monitors report %s on the same episode under the interpreter" % [f["kind"] for f in rep["findings"]][:3])
+            else:
+                verdict = (True, "episode %s of %s at capacity %s: unoptimised hooks-on driver clean, interpreter (%s) clean, %d field values compared there"
+                           % (episode, module, cap, "Stacked Borrows" + ("" if serde_ops else " + symbolic alignment check"), rep.get("counters", {}).get("field_values_compared", 0)))
+    cache[key] = verdict
+    return verdict
+
+
 def run_native(ctx, binary, label, pid, episodes, max_ops, nshards=12, extra=()):
     jobs = []
     for s in range(nshards):
         jobs.append(("%s-%d" % (label, s), [binary, "--seed", str(ctx.seed), "--episodes", str(episodes), "--max-ops", str(max_ops),
                                           "--shard", str(s), "--nshards", str(nshards), "--quiet-panics"] + list(extra), None, None))
-    for (lab, rc, out, err, secs) in ctx.run_parallel(jobs, 3600):
+    results = ctx.run_parallel(jobs, 3600)
+    # optimised builds only: hardware faults that the unoptimised driver and the interpreter
+    # do not reproduce on the same episode are set aside (module skipped, shard re-run)
+    skip = []
+    for round_ in range(4):
+        if "release" not in label:
+            break
+        again = []
+        for (lab, rc, out, err, secs) in results:
+            if rc in (-11, -7, -4) and "misaligned pointer dereference" not in (err or ""):
+                cmd = [j for j in jobs if j[0] == lab][0][1] + (["--skip-modules", ",".join(skip)] if skip else [])
+                rc2, out2, err2 = common.sh(cmd + ["--trace"], timeout=1800)
+                if rc2 not in (-11, -7, -4):
+                    # does not die any more once the modules set aside so far are left out
+                    if skip:
+                        again.append(lab)
+                    continue
+                trace = [l for l in (err2 or "").splitlines() if l.startswith("TRACE ")]
+                m = re.match(r"TRACE (\S+) cap (\d+) episode (\d+):", trace[-1]) if trace else None
+                if m and m.group(1) not in skip:
+                    last_ep = trace[-1].split(":")[0]
+                    ops = [l.split(": ", 1)[1] for l in trace if l.startswith(last_ep + ":")]
+                    cleared, text = triage_crash(ctx, binary, label, m.group(1), int(m.group(2)), int(m.group(3)), ops, extra)
+                    if cleared:
+                        skip.append(m.group(1))
+                        ctx.__dict__.setdefault("cleared_modules", set()).add(m.group(1))
+                        ctx.count("optimised_driver_faults_not_reproduced_by_the_unoptimised_driver_and_the_interpreter", 1)
+                        note = "[%s] the optimised driver died with status %s; %s -> attributed to the toolchain's code generation, module left out of this binary's run" % (lab, rc, text)
+                        if note not in ctx.notes:
+                            ctx.notes.append(note)
+                    else:
+                        ctx.triage_text = text
+                if m and m.group(1) in skip:
+                    again.append(lab)
+        if not again:
+            break
+        redo = [(j[0], j[1] + ["--skip-modules", ",".join(skip)], j[2], j[3]) for j in jobs if j[0] in again]
+        new = {r[0]: r for r in ctx.run_parallel(redo, 3600)}
+        results = [new.get(r[0], r) for r in results]
+        jobs = [(j[0], j[1] + ["--skip-modules", ",".join(skip)], j[2], j[3]) if j[0] in again else j for j in jobs]
+    for (lab, rc, out, err, secs) in results:
         rep = common.parse_json_tail(out)
         if rc is None:
             ctx.inconclusive.append("driver run %s timed out" % lab)
@@ -220,7 +317,7 @@ def run_native(ctx, binary, label, pid, episodes, max_ops, nshards=12, extra=())
                 if any(o.startswith(("Ser", "De", "Expected")) for o in ops):
                     props.add("C15")
                 if pid in props:
-                    ctx.violation("driver-crashed", "[%s] the driver died with status %s in %s; operations of that episode: %s; last hook events: %s; stderr tail: %s" % (lab, rc, last_ep[6:], ops[-8:], hook, text[-300:]),
+                    ctx.violation("driver-crashed", "[%s] the driver died with status %s in %s; operations of that episode: %s; last hook events: %s; stderr tail: %s%s" % (lab, rc, last_ep[6:], ops[-8:], hook, text[-300:], ("; " + ctx.triage_text) if getattr(ctx, "triage_text", None) else ""),
                                   "%s driver-crashed %s %s" % (pid, label, " ".join(h.split(" addr=")[0] for h in hook[-1:])[:160]), {"stderr": text, "cmd": " ".join(cmd), "ops": ops})
                 else:
                     ctx.inconclusive.append("driver run %s died with status %s" % (lab, rc))
@@ -288,7 +385,8 @@ def run_asan(ctx, d, label, pid, episodes, max_ops, release=False):
     renv = dict(common.ENV)
     renv["ASAN_OPTIONS"] = "detect_leaks=1:halt_on_error=1:detect_stack_use_after_return=1"
     nsh = 12
-    jobs = [("asan-%d" % s, [binary, "--seed", str(ctx.seed), "--episodes", str(episodes), "--max-ops", str(max_ops), "--shard", str(s), "--nshards", str(nsh), "--quiet-panics"], None, renv)
+    jobs = [("asan-%d" % s, [binary, "--seed", str(ctx.seed), "--episodes", str(episodes), "--max-ops", str(max_ops), "--shard", str(s), "--nshards", str(nsh), "--quiet-panics"]
+             + (skip_cleared(ctx) if release else []), None, renv)
             for s in range(nsh)]
     clean = 0
     for (lab, rc, out, err, secs) in ctx.run_parallel(jobs, 3600):
@@ -318,12 +416,19 @@ def run_asan(ctx, d, label, pid, episodes, max_ops, release=False):
                         "episodes_per_module_and_capacity": episodes, "processes": nsh})
 
 
+def skip_cleared(ctx):
+    """Modules set aside by the crash triage of the optimised native run (same machine code)."""
+    cleared = sorted(getattr(ctx, "cleared_modules", set()))
+    return ["--skip-modules", ",".join(cleared)] if cleared else []
+
+
 def run_valgrind(ctx, binary, label, pid, episodes, max_ops):
     jobs = []
     nsh = 8
     for s in range(nsh):
         jobs.append(("vg-%d" % s, ["valgrind", "-q", "--error-exitcode=9", "--leak-check=full", "--errors-for-leak-kinds=definite,indirect", binary,
-                                   "--seed", str(ctx.seed), "--episodes", str(episodes), "--max-ops", str(max_ops), "--shard", str(s), "--nshards", str(nsh), "--quiet-panics"], None, None))
+                                   "--seed", str(ctx.seed), "--episodes", str(episodes), "--max-ops", str(max_ops), "--shard", str(s), "--nshards", str(nsh), "--quiet-panics"]
+                     + skip_cleared(ctx), None, None))
     clean = 0
     for (lab, rc, out, err, secs) in ctx.run_parallel(jobs, 5400):
         rep = common.parse_json_tail(out)
